@@ -523,11 +523,19 @@ class If(TokenList):
     M_OPEN = T.Keyword, 'IF'
     M_CLOSE = T.Keyword, 'END IF'
 
+    @property
+    def _groupable_tokens(self):
+        return self.tokens[1:-1]
+
 
 class For(TokenList):
     """A 'FOR' loop."""
     M_OPEN = T.Keyword, ('FOR', 'FOREACH')
     M_CLOSE = T.Keyword, 'END LOOP'
+
+    @property
+    def _groupable_tokens(self):
+        return self.tokens[1:-1]
 
 
 class Comparison(TokenList):
@@ -572,6 +580,10 @@ class Case(TokenList):
     """A CASE statement with one or more WHEN and possibly an ELSE part."""
     M_OPEN = T.Keyword, 'CASE'
     M_CLOSE = T.Keyword, 'END'
+
+    @property
+    def _groupable_tokens(self):
+        return self.tokens[1:-1]
 
     def get_cases(self, skip_ws=False):
         """Returns a list of 2-tuples (condition, value).
@@ -648,6 +660,10 @@ class Begin(TokenList):
     """A BEGIN/END block."""
     M_OPEN = T.Keyword, 'BEGIN'
     M_CLOSE = T.Keyword, 'END'
+
+    @property
+    def _groupable_tokens(self):
+        return self.tokens[1:-1]
 
 
 class Operation(TokenList):
